@@ -182,6 +182,19 @@ type encAfter struct {
 	TailTS   *encTagStruct
 }
 
+// encTagMap2 is a Taggable map whose tags also point INTO a nested map.
+type encTagMap2 map[string]interface{}
+
+func (t encTagMap2) Tags() ([]encrypt.PointerTag, error) {
+	return []encrypt.PointerTag{
+		{Pointer: "/top", Classification: encrypt.SecretClassification, Filter: encrypt.HmacSha256Operation},
+		{Pointer: "/pub", Classification: encrypt.PublicClassification},
+		{Pointer: "/deep/tok", Classification: encrypt.SensitiveClassification, Filter: encrypt.EncryptOperation},
+		{Pointer: "/deep/pub", Classification: encrypt.PublicClassification},
+		{Pointer: "/deep/absent", Classification: encrypt.SecretClassification},
+	}, nil
+}
+
 // encOdd: maps whose values are POINTERS to strings / wrapper values, maps with
 // non-string keys, and Taggables reached through a pointer or stored as map values.
 type encOdd struct {
@@ -196,6 +209,9 @@ type encOdd struct {
 	MT   map[string]encTagMap
 	MTS  map[string]*encTagStruct
 	SPT  []*encTagStruct
+	MST  map[string][]*encTagStruct
+	IT   interface{} // holds a Taggable map
+	DT   encTagMap2
 	Tail string `class:"sensitive"`
 }
 
@@ -624,6 +640,33 @@ func (g *encGen) after(where string) *encAfter {
 	return a
 }
 
+func (g *encGen) tagMap2(where string) encTagMap2 {
+	m := encTagMap2{"n": 7}
+	if g.want() {
+		m["top"] = g.canary(g.treatFor("secret,hmac-sha256", true), where+"{top}")
+	}
+	if g.want() {
+		m["pub"] = g.canary("keep", where+"{pub}")
+	}
+	if g.want() {
+		m["untagged"] = g.canary("redact", where+"{untagged}")
+	}
+	if g.d.next(4) != 0 {
+		deep := map[string]interface{}{}
+		if g.want() {
+			deep["tok"] = g.canary(g.treatFor("sensitive,encrypt", true), where+"{deep}{tok}")
+		}
+		if g.want() {
+			deep["pub"] = g.canary("keep", where+"{deep}{pub}")
+		}
+		if g.want() {
+			deep["untagged"] = g.canary("redact", where+"{deep}{untagged}")
+		}
+		m["deep"] = deep
+	}
+	return m
+}
+
 func (g *encGen) odd(where string) *encOdd {
 	o := &encOdd{}
 	ps := func(w string) *string { s := g.canary("redact", w); return &s }
@@ -670,6 +713,15 @@ func (g *encGen) odd(where string) *encOdd {
 	}
 	if g.want() {
 		o.SPT = []*encTagStruct{g.tagStruct(where + ".SPT[]")}
+	}
+	if g.want() {
+		o.MST = map[string][]*encTagStruct{"l": {g.tagStruct(where + ".MST{}[]")}}
+	}
+	if g.want() {
+		o.IT = g.tagMap(where + ".IT(iface)")
+	}
+	if g.want() {
+		o.DT = g.tagMap2(where + ".DT")
 	}
 	if g.want() {
 		o.Tail = g.canary(g.treatFor("sensitive", true), where+".Tail")
@@ -752,6 +804,8 @@ func (g *encGen) payload(kind int, depth int) (interface{}, string) {
 	case 18:
 		t := g.tagMap("ptagmap")
 		return &t, "*taggable-map"
+	case 23:
+		return g.tagMap2("tagmap2"), "taggable-map(deep-tags)"
 	case 22:
 		return &encLockable{Secret: g.canary(g.treatFor("secret", true), "*lockable.Secret"), Pub: g.canary("keep", "*lockable.Pub")}, "*struct(sync.Locker)"
 	case 20:
@@ -1140,7 +1194,7 @@ func runEncrypt(rc *RunCtx, prop string) {
 			d := &drawRec{tape: tp}
 			fill := []int{15, 40, 80}[tp.Choose(3, "fill")]
 			g := &encGen{d: d, exp: map[string]*leafExp{}, overrides: overrides, fill: fill, withIgnored: withIgnored}
-			kind := tp.Choose(23, "kind")
+			kind := tp.Choose(24, "kind")
 			depth := tp.Choose(3, "depth")
 			var payload interface{}
 			var top string
